@@ -18,7 +18,7 @@ RULE = ("cases = (seeded assignment-free program, selected pure+total sub-expres
         "enclosing construct, whether free variables are involved, tool outcome)")
 ASSUME = ["purity/totality marks of gm/gen/prog.py are correct (no print, no assignment, cannot raise)",
           "a refusal (exit 10 with a message) is not a violation: the property speaks about the programs the tool produces"]
-BATCH = 2
+BATCH = 1
 FLOOR = {"quick": 20, "thorough": 40}
 BUDGET = {"quick": 45, "thorough": 840}
 
@@ -102,8 +102,8 @@ def run_case(case, sc):
     cands = [(e, st, en) for e, st, en in p.nodes
              if e["pure"] and e["total"] and e["k"] not in ("var", "int", "bool", "str", "unit", "none", "lambda")
              and e["ty"] != G.UNIT and not (isinstance(e["ty"], list) and e["ty"][0] == "Fun")]
-    if len(cands) > 14:
-        cands = rng.sample(cands, 14)
+    if len(cands) > 5:
+        cands = rng.sample(cands, 5)
     keys = set()
     for e, st, en in cands:
         for tool in ("variable", "function"):
